@@ -31,7 +31,8 @@ type runLoop struct {
 	fn      *ssa.Function
 	fi      *fnInfo
 	X       *ssa.Call
-	recv    ssa.Value // the iterated task (X's receiver)
+	Xs      []*ssa.Call // every place where the commands of a task are executed (X is one of them)
+	recv    ssa.Value   // the iterated task (X's receiver)
 	loop    *loopInfo
 	reg     *region
 	H       []*ssa.Call
@@ -189,12 +190,17 @@ func (c *Ctx) takesCache(call *ssa.Call) bool {
 	return false
 }
 
-var runLoopCache = map[*Ctx]*runLoop{}
+type runLoopKey struct {
+	c  *Ctx
+	xi int
+}
 
-func (c *Ctx) runLoop() *runLoop {
-	if rl, ok := runLoopCache[c]; ok {
-		return rl
-	}
+var runLoopCache = map[runLoopKey]*runLoop{}
+
+// runSites: the calls of (*task.Task).Run in the module ("the commands of a task are executed here"). The run-loop rules are
+// stated per execution of the commands; when a function executes them at more than one place (a special-cased branch of the
+// loop), every rule is evaluated once for each place (see evaluate) and c.xIndex selects which one rl.X stands for.
+func (c *Ctx) runSites() []*ssa.Call {
 	taskRun := c.method("task", "Task", "Run")
 	var xs []*ssa.Call
 	for _, f := range c.ModFuncs {
@@ -204,10 +210,64 @@ func (c *Ctx) runLoop() *runLoop {
 			}
 		}
 	}
-	if len(xs) != 1 {
-		lost("expected exactly one call of (*task.Task).Run in the module, found %d", len(xs))
+	sort.Slice(xs, func(i, j int) bool { return xs[i].Pos() < xs[j].Pos() })
+	return xs
+}
+
+// precedesInIteration: b can be reached from a without going round the task loop.
+func (rl *runLoop) precedesInIteration(a, b ssa.Instruction) bool {
+	if a.Block() == b.Block() {
+		return before(a, b)
 	}
-	rl := &runLoop{c: c, X: xs[0], fn: xs[0].Parent()}
+	seen := map[*ssa.BasicBlock]bool{}
+	work := []*ssa.BasicBlock{a.Block()}
+	for len(work) > 0 {
+		x := work[len(work)-1]
+		work = work[:len(work)-1]
+		for _, s := range x.Succs {
+			if rl.loop != nil && s == rl.loop.header {
+				continue
+			}
+			if s == b.Block() {
+				return true
+			}
+			if !seen[s] {
+				seen[s] = true
+				work = append(work, s)
+			}
+		}
+	}
+	return false
+}
+
+// runSitesQuiet is runSites for callers outside a rule (no anchor error when the method is missing).
+func (c *Ctx) runSitesQuiet() (xs []*ssa.Call) {
+	defer func() {
+		if recover() != nil {
+			xs = nil
+		}
+	}()
+	return c.runSites()
+}
+
+func (c *Ctx) runLoop() *runLoop {
+	if rl, ok := runLoopCache[runLoopKey{c, c.xIndex}]; ok {
+		return rl
+	}
+	xs := c.runSites()
+	if len(xs) == 0 {
+		lost("no call of (*task.Task).Run in the module")
+	}
+	for _, x := range xs[1:] {
+		if x.Parent() != xs[0].Parent() {
+			lost("(*task.Task).Run is called from %d different functions (%s, %s): the run loop cannot be identified", 2, fname(xs[0].Parent()), fname(x.Parent()))
+		}
+	}
+	xi := c.xIndex
+	if xi >= len(xs) {
+		xi = 0
+	}
+	rl := &runLoop{c: c, X: xs[xi], Xs: xs, fn: xs[xi].Parent()}
 	rl.fi = c.info(rl.fn)
 	rl.recv = rl.X.Common().Args[0]
 	rl.loop = rl.fi.innermostLoop(rl.X.Block())
@@ -254,7 +314,7 @@ func (c *Ctx) runLoop() *runLoop {
 	for _, s := range rl.S {
 		registerControlValue(s.val, s.call)
 	}
-	runLoopCache[c] = rl
+	runLoopCache[runLoopKey{c, c.xIndex}] = rl
 	return rl
 }
 
@@ -997,6 +1057,18 @@ func ruleCP8(c *Ctx) *rule {
 		}
 		n++
 		key := fmt.Sprintf("%s S(H)#%d", fname(rl.fn), n)
+		// (when the commands are executed at several places, an update that only another of them can reach is judged there)
+		if len(rl.Xs) > 1 && !rl.precedesInIteration(rl.X, s.call) {
+			other := false
+			for _, x := range rl.Xs {
+				if x != rl.X && rl.precedesInIteration(x, s.call) {
+					other = true
+				}
+			}
+			if other {
+				continue
+			}
+		}
 		// shape 1: S after X; every way an H-derived value reaches it is guarded by Ok() of X's own result
 		guarded := before(rl.X, s.call)
 		var badGuards []guard
